@@ -37,7 +37,22 @@ def flat(t):
             rec(n['kids'][1])
     rec(t)
     ws = [x['tok']['word'] for x in trees.leaves_of(t)]
-    return {'failed': ws == ['FAILED'], 'leaves': leaves, 'bins': bins, 'uns': uns}
+    # head-first dependencies, computed here from the harness's own tree (not with depccg's code)
+    deps = [None] * len(ws)
+    pos = [0]
+
+    def head(n):
+        if n['k'] == 'L':
+            pos[0] += 1
+            return pos[0]
+        if n['k'] == 'U':
+            return head(n['kids'][0])
+        h = head(n['kids'][0])
+        d = head(n['kids'][1])
+        deps[d - 1] = h
+        return h
+    deps[head(t) - 1] = 0
+    return {'failed': ws == ['FAILED'], 'leaves': leaves, 'bins': bins, 'uns': uns, 'deps': deps}
 
 
 def read_table(path, arity):
@@ -55,7 +70,32 @@ def read_table(path, arity):
     return rows
 
 
-def run_creator(bank_dicts, ccut, wcut, acut=None):
+def read_sents(path):
+    with open(path, encoding='utf-8') as f:
+        return [ln.rstrip('\n').split(' ') for ln in f if ln.rstrip('\n')]
+
+
+def read_conll(path):
+    """-> blocks of rows of ten fields (position and head as numbers); None when a line does not have that layout"""
+    blocks, cur = [], []
+    with open(path, encoding='utf-8') as f:
+        for ln in f:
+            ln = ln.rstrip('\n')
+            if not ln:
+                if cur:
+                    blocks.append(cur)
+                cur = []
+                continue
+            fs = ln.split('\t')
+            if len(fs) != 10 or not fs[0].isdigit() or not fs[6].isdigit():
+                return None
+            cur.append([int(fs[0]), fs[1], fs[2], fs[3], fs[4], fs[5], int(fs[6]), fs[7], fs[8], fs[9]])
+    if cur:
+        return None          # the last block is not closed by a blank line
+    return blocks
+
+
+def run_creator(bank_dicts, ccut, wcut, acut=None, mode='train'):
     """-> the files the real creator writes for a bank given as tree dicts"""
     from depccg.printer import to_string
     from depccg.tools.data import TrainingDataCreator
@@ -72,9 +112,21 @@ def run_creator(bank_dicts, ccut, wcut, acut=None):
     for fn in os.listdir(out):
         os.remove(os.path.join(out, fn))
     args = types.SimpleNamespace(PATH=Path(path), OUT=Path(out), word_freq_cut=wcut, cat_freq_cut=ccut, afix_freq_cut=wcut if acut is None else acut)
-    res = {'raised': False, 'why': '', 'target': [], 'words': [], 'seen': [], 'unary': [], 'prefixes': [], 'suffixes': [], 'nsamples': 0}
+    res = {'raised': False, 'why': '', 'target': [], 'words': [], 'seen': [], 'unary': [], 'prefixes': [], 'suffixes': [], 'nsamples': 0, 'sents': [], 'conll': [], 'conll_layout_ok': True}
     try:
+        if mode == 'test':
+            TrainingDataCreator.create_testdata(args)
+            with open(os.path.join(out, 'testdata.json')) as f:
+                res['nsamples'] = len(json.load(f))
+            res['sents'] = read_sents(os.path.join(out, 'testsents.txt'))
+            cb = read_conll(os.path.join(out, 'testsents.conll'))
+            res['conll'], res['conll_layout_ok'] = cb or [], cb is not None
+            res['other_files'] = sorted(fn for fn in os.listdir(out) if not fn.startswith('test'))
+            return res
         TrainingDataCreator.create_traindata(args)
+        res['sents'] = read_sents(os.path.join(out, 'trainsents.txt'))
+        cb = read_conll(os.path.join(out, 'trainsents.conll'))
+        res['conll'], res['conll_layout_ok'] = cb or [], cb is not None
         res['target'] = read_table(os.path.join(out, 'target.txt'), 1)
         res['words'] = read_table(os.path.join(out, 'words.txt'), 1)
         res['seen'] = read_table(os.path.join(out, 'seen_rules.txt'), 2)
@@ -119,7 +171,7 @@ def conformance(tier, rng):
     substrate.load(hook=False)
     rf.set_lang('en')
     runs = []
-    for cfg in ('MCTrainData.cfg', 'MCTrainData_deep.cfg', 'MCTrainData_oor.cfg'):
+    for cfg in ('MCTrainData.cfg', 'MCTrainData_deep.cfg', 'MCTrainData_oor.cfg', 'MCTrainData_test.cfg'):
         r = require_clean(run_tlc('MCTrainData.tla', cfg, workers=4, timeout=1200), cfg)
         if r.violated:
             raise Machinery('TrainData.tla: %s violated (%s)' % (r.violated, cfg))
@@ -135,7 +187,7 @@ def conformance(tier, rng):
     # spec -> code
     dev_vec = {}
     for v in vecs:
-        got = run_creator([dict_of_vec_tree(t) for t in v['src']], v['ccut'], v['wcut'], v['acut'])
+        got = run_creator([dict_of_vec_tree(t) for t in v['src']], v['ccut'], v['wcut'], v['acut'], v['mode'])
         bad = []
         if got['raised']:
             bad.append('creator_raised')
@@ -145,6 +197,12 @@ def conformance(tier, rng):
                     bad.append(k + '_differs_from_the_vector')
             if got['nsamples'] != v['nsamples']:
                 bad.append('number_of_samples_differs_from_the_vector')
+            if got['sents'] != v['sents']:
+                bad.append('sentence_file_differs_from_the_vector')
+            if not got['conll_layout_ok'] or got['conll'] != v['conll']:
+                bad.append('conll_file_differs_from_the_vector')
+            if got.get('other_files'):
+                bad.append('test_mode_wrote_tables')
         for c in bad:
             dev_vec.setdefault(c, []).append({'vector': v, 'files': got})
     # code -> spec
@@ -152,8 +210,9 @@ def conformance(tier, rng):
     for it in range(150 if tier == 'quick' else 2500):
         bank = random_bank(rng)
         ccut, wcut, acut = rng.choice([1, 2, 3]), rng.choice([1, 2, 3]), rng.choice([1, 2, 3, 5])
-        got = run_creator(bank, ccut, wcut, acut)
-        ev = {'id': len(events) + 1, 'e': 'traindata', 'ccut': ccut, 'wcut': wcut, 'acut': acut, 'bank': [flat(t) for t in bank],
+        mode = 'test' if it % 5 == 4 else 'train'
+        got = run_creator(bank, ccut, wcut, acut, mode)
+        ev = {'id': len(events) + 1, 'e': 'traindata', 'mode': mode, 'sents': got['sents'], 'conll': got['conll'], 'layout': got['conll_layout_ok'], 'ccut': ccut, 'wcut': wcut, 'acut': acut, 'bank': [flat(t) for t in bank],
               'raised': got['raised'], 'target': got['target'], 'words': got['words'], 'seen': got['seen'], 'unary': got['unary'], 'prefixes': got['prefixes'], 'suffixes': got['suffixes'], 'nsamples': got['nsamples']}
         events.append(ev)
         metas[ev['id']] = {'bank': [' '.join(x['tok']['word'] for x in trees.leaves_of(t)) for t in bank], 'ccut': ccut, 'wcut': wcut, 'acut': acut, 'raised': got['why']}
@@ -180,11 +239,25 @@ def conformance(tier, rng):
             e['prefixes'] = e['prefixes'][:-1]
             return e
 
+    def head_moved(e):
+        for b in e['conll']:
+            if len(b) > 1:
+                r = [x for x in b if x[6] != 0][0]
+                r[6] = r[0]
+                return e
+
+    def word_lowered(e):
+        for b in e['sents']:
+            for j, w in enumerate(b):
+                if w != w.lower():
+                    b[j] = w.lower()
+                    return e
+
     def flip_unary(e):
         if e['unary'] and e['unary'][0][0] != e['unary'][0][1]:
             e['unary'][0][0], e['unary'][0][1] = e['unary'][0][1], e['unary'][0][0]
             return e
-    demo = binding_demo('traces/TrainDataTrace.tla', events, [('one_seen_rule_removed', drop_row), ('one_count_changed', count_off), ('unary_pair_written_child_first', flip_unary), ('one_suffix_count_changed', suffix_count_off), ('one_prefix_row_removed', prefix_row_dropped)], 'traindata')
+    demo = binding_demo('traces/TrainDataTrace.tla', events, [('one_seen_rule_removed', drop_row), ('one_count_changed', count_off), ('unary_pair_written_child_first', flip_unary), ('one_suffix_count_changed', suffix_count_off), ('one_prefix_row_removed', prefix_row_dropped), ('one_conll_head_changed', head_moved), ('one_word_of_the_sentence_file_lower_cased', word_lowered)], 'traindata')
     dev = {}
     for i, cl in rejects:
         dev.setdefault(cl, []).append(metas[i])
